@@ -45,6 +45,11 @@ type Case struct {
 
 	// OnEvent, when set, is called synchronously after each non-probe event (index counts those).
 	OnEvent func(index int, ev *obs.Event)
+
+	// ReuseLive / ReuseDC, when set, make the call run on an existing data context (and its live fact
+	// objects) instead of a new one built from Init.
+	ReuseLive *facts.State
+	ReuseDC   ast.IDataContext
 }
 
 // Violation is a broken clause.
@@ -55,23 +60,23 @@ type Violation struct {
 
 // Report is the outcome of a validated run.
 type Report struct {
-	V         []Violation
-	Excluded  string // non-empty: the run left the property's quantifier (reason)
-	Harness   string // non-empty: the harness itself failed (build of a valid text etc.)
-	Events    []obs.Event
-	Err       error
-	Panicked  interface{}
-	Final     *facts.State
-	Cycles    int // completed evaluation phases
-	Firings   int
-	Fired     []string
-	FlipsTF   int // rule truth true->false between consecutive evaluations
-	FlipsFT   int // rule truth false->true
-	MultiCand int // cycles with >= 2 true rules of different salience
-	TieCycles int // cycles with >= 2 true rules of maximal salience
-	NegSal    int // cycles whose conflict set has a negative salience
-	Retracted map[string]bool
-	Completed bool
+	V                  []Violation
+	Excluded           string // non-empty: the run left the property's quantifier (reason)
+	Harness            string // non-empty: the harness itself failed (build of a valid text etc.)
+	Events             []obs.Event
+	Err                error
+	Panicked           interface{}
+	Final              *facts.State
+	Cycles             int // completed evaluation phases
+	Firings            int
+	Fired              []string
+	FlipsTF            int // rule truth true->false between consecutive evaluations
+	FlipsFT            int // rule truth false->true
+	MultiCand          int // cycles with >= 2 true rules of different salience
+	TieCycles          int // cycles with >= 2 true rules of maximal salience
+	NegSal             int // cycles whose conflict set has a negative salience
+	Retracted          map[string]bool
+	Completed          bool
 	RetractedTrueLater bool // a retracted rule was true (fresh) at a later cycle
 	CompleteNotLast    bool // Complete() was followed by further actions in its rule
 	ProbeCalls         []facts.ProbeCall
@@ -81,10 +86,12 @@ type Report struct {
 	FaultIn            string              // "condition" or "action"
 	FaultRule          string              // rule being evaluated / executed when the fault hit
 	FaultEventIndex    int
+	Live               *facts.State     // the live fact objects of this call (for chaining calls on one data context)
+	DC                 ast.IDataContext // the data context of this call
 	FaultPre           *facts.State
 	FaultPost          *facts.State
 	FaultCycle         uint64
-	NotesAB            int                 // disagreements between reference truth (A) and fresh-engine truth (B)
+	NotesAB            int // disagreements between reference truth (A) and fresh-engine truth (B)
 }
 
 func (r *Report) add(prop, f string, a ...interface{}) {
@@ -194,18 +201,28 @@ func RunOn(c *Case, p *Prepared, kb *ast.KnowledgeBase) *Report {
 			return rep
 		}
 	}
-	live := c.Init.Copy()
+	var live *facts.State
+	var dc ast.IDataContext
 	probe := &facts.Probe{FailAt: c.ProbeFailAt, Mode: c.ProbeMode}
+	if c.ReuseDC != nil && c.ReuseLive != nil {
+		live, dc = c.ReuseLive, c.ReuseDC
+	} else {
+		live = c.Init.Copy()
+	}
 	for _, f := range live.Go {
 		if f != nil {
 			f.SetProbe(probe)
 		}
 	}
-	dc, err := obs.NewDataContext(live)
-	if err != nil {
-		rep.Harness = "data context: " + err.Error()
-		return rep
+	if dc == nil {
+		var err error
+		dc, err = obs.NewDataContext(live)
+		if err != nil {
+			rep.Harness = "data context: " + err.Error()
+			return rep
+		}
 	}
+	rep.Live, rep.DC = live, dc
 	nl := c.Listeners
 	if nl < 1 {
 		nl = 1
